@@ -8,35 +8,14 @@ sequence up to depth 3 over 4 inputs x 3 outputs (+ usage errors) and prints eac
 expected state after every step; the Go replayer runs the real binary, built from the repository
 under test, step by step in a scratch directory and compares files, standard output and exit code.
 Not a listed property: a deviation is reported as EXTRA-DEVIATION, never as VIOLATION."""
-import json, os, subprocess
-from lib import vlib, deccheck
+from lib import vlib, clicheck
 
 
 def run(ctx):
     ctx.build_harness()
-    binp = os.path.join(ctx.tmp, "disivg")
-    env = dict(os.environ, GOFLAGS="-mod=mod", GOPROXY="off", GOSUMDB="off", GOTOOLCHAIN="local")
-    p = subprocess.run(["go", "build", "-o", binp, "./cmd/disivg"], cwd=vlib.REPO, env=env, capture_output=True, text=True)
-    if p.returncode != 0:
-        raise vlib.Broken("cmd/disivg does not build:\n" + p.stdout + p.stderr)
-    gen = os.path.join(ctx.tmp, "GEN_Cli.out")
-    g = ctx.tlc("GEN_Cli", "GEN_Cli" if ctx.tier == "quick" else "GEN_Cli_t", timeout=1800, out_file=gen)
-    if g["error"] or not g["finished"]:
-        raise vlib.Broken("GEN_Cli failed (spec-level):\n%s" % vlib.tail(g["out"]))
-    ctx.mc.append({k: g[k] for k in ("module", "cfg", "generated", "distinct", "wall_s")})
-    mis = os.path.join(ctx.tmp, "cli.mis")
-    work = os.path.join(ctx.tmp, "cliwork")
-    os.makedirs(work, exist_ok=True)
-    p, _ = ctx.run_harness(["replay-cli", "-in", gen, "-out", mis, "-bin", binp, "-work", work], timeout=3000)
-    s = deccheck.summary_of(p)
-    if s["cases"] < 1000:
-        raise vlib.Broken("too few generated sequences: %d" % s["cases"])
-    for line in open(mis):
-        m = json.loads(line)
-        ctx.violation("cli:%s:%s" % (m["what"][:40], "|".join(m["seq"])),
-                      "cmd/disivg differs from Cli.tla after %s: %s" % (" ; ".join(m["seq"]), m["what"]), m)
-    cov = dict(states=g["distinct"], transitions=g["generated"], traces_validated_against_impl=s["cases"],
-               process_runs=s["process_runs"], listing_bytes=[s["listing_big"], s["listing_small"]], exhaustive=True)
+    c = clicheck.run_cli(ctx, "GEN_Cli" if ctx.tier == "quick" else "GEN_Cli_t")
+    cov = dict(states=c["states"], transitions=c["transitions"], traces_validated_against_impl=c["sequences"],
+               process_runs=c["process_runs"], listing_bytes=c["listing_bytes"], exhaustive=True)
     return vlib.finish(ctx, "model_checking", cov, [
         "inputs: the largest and the smallest well-formed corpus graphic, a truncated one, a missing path; outputs: stdout and two files, one of which pre-exists with stale content of intermediate length",
         "what a complete listing is comes from decode.Disassemble (the subject of C11)"])
